@@ -5,6 +5,7 @@ start-up step, every body of the session (any trace of process events with any
 ending), every capability / env / profiling combination, every core count.
 -/
 import RB.Model.Denoise
+import RB.Proofs.Lemmas.Denoise
 import Mathlib.Analysis.SpecialFunctions.Log.Basic
 import Mathlib.Analysis.Complex.ExponentialBounds
 
@@ -348,6 +349,285 @@ theorem c20_caps_as_reported (nice shield : Option JV) (others : List JV) :
     ∃ res, minimize (.json nice shield others) = some res ∧
       res.useNice = truthy nice ∧ res.useShielding = truthy shield := by
   exact ⟨_, rfl, rfl, rfl⟩
+
+/-! ## `denoise.py` itself: `restore` undoes what `minimize` changed
+
+docs/denoise.md: "`restore` will set the system back to a state that is the presumed
+standard state".  `roundTrip` is `minimize` followed by `restore` with the flags ReBench
+derives from what `minimize` reported. -/
+
+theorem untouched_flatten (L : List (List Act)) (x : Setting) (h : ∀ g ∈ L, Untouched g x) :
+    Untouched L.flatten x := by
+  induction L with
+  | nil => exact untouched_nil x
+  | cons g L ih =>
+    simp only [List.flatten_cons]
+    exact untouched_append (h g (by simp)) (ih (fun g' hg' => h g' (List.mem_cons_of_mem _ hg')))
+
+theorem focusL (h : Host) (s : Sys) (L R : List (List Act)) (mid : List Act) (x : Setting)
+    (hL : ∀ g ∈ L, Untouched g x) (hR : ∀ g ∈ R, Untouched g x) :
+    applyActs h s (L.flatten ++ mid ++ R.flatten) x = applyActs h s mid x :=
+  focus h s _ mid _ x (untouched_flatten L x hL) (untouched_flatten R x hR)
+
+theorem perf_case (h : Host) (n : Nat) (nice shield prof : Bool) (s0 : Sys) (x : Setting)
+    (hx : x.isPerf = true) :
+    (roundTrip h n nice shield prof s0).1 x ≠ s0 x →
+    (roundTrip h n nice shield prof s0).2 x = stdSys x := by
+  have hmP : (minimizeActs h n nice shield prof).1 =
+      [(governorActs h vPerformance 0 n).1, (noTurboActs h ['1']).1].flatten ++ (perfConfigActs h prof).1 ++
+        [(if nice then [Act.niceProbe] else []),
+         (if shield && h.hasCset then [Act.shieldOn (shieldLo n) (shieldHi n)] else [])].flatten := by
+    simp [minimizeActs, List.append_assoc]
+  have hrP : (restoreActs h n (minimizeActs h n nice shield prof).2.shielding).1 =
+      [(governorActs h vPowersave 0 n).1, (noTurboActs h ['0']).1].flatten ++ (perfRestoreActs h).1 ++
+        [(if (minimizeActs h n nice shield prof).2.shielding then [Act.shieldReset] else [])].flatten := by
+    simp [restoreActs, List.append_assoc]
+  have hng : ∀ j, x ≠ .governor j := by intro j e; subst e; simp [Setting.isPerf] at hx
+  have hnt : x ≠ .noTurbo := by intro e; subst e; simp [Setting.isPerf] at hx
+  have hns : x ≠ .shield := by intro e; subst e; simp [Setting.isPerf] at hx
+  have hL : ∀ v w, ∀ g ∈ [(governorActs h v 0 n).1, (noTurboActs h w).1], Untouched g x := by
+    intro v w g hg
+    simp only [List.mem_cons, List.not_mem_nil, or_false] at hg
+    rcases hg with rfl | rfl
+    · exact governor_untouched h _ _ _ _ hng
+    · exact noTurbo_untouched h _ _ hnt
+  simp only [roundTrip]
+  rw [hmP, hrP, focusL h _ _ _ _ x (hL _ _), focusL h _ _ _ _ x (hL _ _)]
+  · cases hw1 : h.writable .perfMaxPercent <;> cases hw2 : h.writable .perfSampleRate <;>
+      cases hw3 : h.writable .perfParanoid <;> cases prof <;> cases x <;>
+      simp [Setting.isPerf] at hx <;>
+      simp [perfConfigActs, perfRestoreActs, hw1, hw2, hw3, applyActs, applyAct, Sys.upd, stdSys]
+  · intro g hg
+    simp only [List.mem_singleton] at hg; subst hg
+    exact shieldReset_untouched _ _ hns
+  · intro g hg
+    simp only [List.mem_cons, List.not_mem_nil, or_false] at hg
+    rcases hg with rfl | rfl
+    · exact nice_untouched _ _
+    · exact shieldOn_untouched _ _ _ _ hns
+
+/-- Every setting that `minimize` changed is back at its standard value after `restore` —
+for every number of cores, every flag combination, every initial state and every pattern of
+files that cannot be written (the script then reports "failed" and stops that step: what it
+could not change it does not need to undo), provided `cset shield -r` works. -/
+theorem c20_denoise_restore_undoes (h : Host) (hr : h.shieldResets = true) (n : Nat)
+    (nice shield prof : Bool) (s0 : Sys) (x : Setting) :
+    (roundTrip h n nice shield prof s0).1 x ≠ s0 x →
+    (roundTrip h n nice shield prof s0).2 x = stdSys x := by
+  -- the five groups of `minimize`, the four of `restore`
+  have hm : (minimizeActs h n nice shield prof).1 =
+      [].flatten ++ (governorActs h vPerformance 0 n).1 ++
+        [(noTurboActs h ['1']).1, (perfConfigActs h prof).1,
+         (if nice then [Act.niceProbe] else []),
+         (if shield && h.hasCset then [Act.shieldOn (shieldLo n) (shieldHi n)] else [])].flatten := by
+    simp [minimizeActs, List.append_assoc]
+  cases x with
+  | governor j =>
+    have e1 : (roundTrip h n nice shield prof s0).1 (.governor j) =
+        if govWritten h 0 n j then vPerformance else s0 (.governor j) := by
+      simp only [roundTrip]
+      rw [hm, focusL h s0 [] _ _ (.governor j) (by simp)]
+      · exact governorActs_effect h vPerformance n 0 s0 j
+      · intro g hg
+        simp only [List.mem_cons, List.not_mem_nil, or_false] at hg
+        rcases hg with rfl | rfl | rfl | rfl
+        · exact noTurbo_untouched h _ _ (by simp)
+        · exact perfConfig_untouched h prof _ rfl
+        · exact nice_untouched _ _
+        · exact shieldOn_untouched _ _ _ _ (by simp)
+    have e2 : ∀ s1 : Sys, applyActs h s1 (restoreActs h n (minimizeActs h n nice shield prof).2.shielding).1
+        (.governor j) = if govWritten h 0 n j then vPowersave else s1 (.governor j) := by
+      intro s1
+      have hrs : (restoreActs h n (minimizeActs h n nice shield prof).2.shielding).1 =
+          [].flatten ++ (governorActs h vPowersave 0 n).1 ++
+            [(noTurboActs h ['0']).1, (perfRestoreActs h).1,
+             (if (minimizeActs h n nice shield prof).2.shielding then [Act.shieldReset] else [])].flatten := by
+        simp [restoreActs, List.append_assoc]
+      rw [hrs, focusL h s1 [] _ _ (.governor j) (by simp)]
+      · exact governorActs_effect h vPowersave n 0 s1 j
+      · intro g hg
+        simp only [List.mem_cons, List.not_mem_nil, or_false] at hg
+        rcases hg with rfl | rfl | rfl
+        · exact noTurbo_untouched h _ _ (by simp)
+        · exact perfRestore_untouched h _ rfl
+        · exact shieldReset_untouched _ _ (by simp)
+    intro hne
+    rw [e1] at hne
+    have e2' := e2 (roundTrip h n nice shield prof s0).1
+    simp only [roundTrip] at e2' ⊢
+    rw [e2']
+    cases hw : govWritten h 0 n j with
+    | false => simp [hw] at hne
+    | true => simp [stdSys]
+  | noTurbo =>
+    have hmT : (minimizeActs h n nice shield prof).1 =
+        [(governorActs h vPerformance 0 n).1].flatten ++ (noTurboActs h ['1']).1 ++
+          [(perfConfigActs h prof).1, (if nice then [Act.niceProbe] else []),
+           (if shield && h.hasCset then [Act.shieldOn (shieldLo n) (shieldHi n)] else [])].flatten := by
+      simp [minimizeActs, List.append_assoc]
+    have hrT : (restoreActs h n (minimizeActs h n nice shield prof).2.shielding).1 =
+        [(governorActs h vPowersave 0 n).1].flatten ++ (noTurboActs h ['0']).1 ++
+          [(perfRestoreActs h).1,
+           (if (minimizeActs h n nice shield prof).2.shielding then [Act.shieldReset] else [])].flatten := by
+      simp [restoreActs, List.append_assoc]
+    have hL : ∀ v, ∀ g ∈ [(governorActs h v 0 n).1], Untouched g .noTurbo := by
+      intro v g hg; simp only [List.mem_singleton] at hg; subst hg
+      exact governor_untouched h _ _ _ _ (by intro j; simp)
+    simp only [roundTrip]
+    rw [hmT, hrT, focusL h _ _ _ _ .noTurbo (hL _), focusL h _ _ _ _ .noTurbo (hL _)]
+    · by_cases hw : h.writable .noTurbo = true
+      · intro _; simp [noTurboActs, hw, applyActs, applyAct, Sys.upd, stdSys]
+      · intro hne; simp [noTurboActs, hw, applyActs] at hne
+    · intro g hg
+      simp only [List.mem_cons, List.not_mem_nil, or_false] at hg
+      rcases hg with rfl | rfl
+      · exact perfRestore_untouched h _ rfl
+      · exact shieldReset_untouched _ _ (by simp)
+    · intro g hg
+      simp only [List.mem_cons, List.not_mem_nil, or_false] at hg
+      rcases hg with rfl | rfl | rfl
+      · exact perfConfig_untouched h prof _ rfl
+      · exact nice_untouched _ _
+      · exact shieldOn_untouched _ _ _ _ (by simp)
+  | perfMaxPercent => exact perf_case h n nice shield prof s0 .perfMaxPercent rfl
+  | perfSampleRate => exact perf_case h n nice shield prof s0 .perfSampleRate rfl
+  | perfParanoid => exact perf_case h n nice shield prof s0 .perfParanoid rfl
+  | shield =>
+    have hmS : (minimizeActs h n nice shield prof).1 =
+        [(governorActs h vPerformance 0 n).1, (noTurboActs h ['1']).1, (perfConfigActs h prof).1,
+         (if nice then [Act.niceProbe] else [])].flatten ++
+          (if shield && h.hasCset then [Act.shieldOn (shieldLo n) (shieldHi n)] else []) ++
+          [].flatten := by
+      simp [minimizeActs, List.append_assoc]
+    have hrS : (restoreActs h n (minimizeActs h n nice shield prof).2.shielding).1 =
+        [(governorActs h vPowersave 0 n).1, (noTurboActs h ['0']).1, (perfRestoreActs h).1].flatten ++
+          (if (minimizeActs h n nice shield prof).2.shielding then [Act.shieldReset] else []) ++
+          [].flatten := by
+      simp [restoreActs, List.append_assoc]
+    simp only [roundTrip]
+    rw [hmS, hrS, focusL h _ _ [] _ .shield _ (by simp), focusL h _ _ [] _ .shield _ (by simp)]
+    · have hsh : (minimizeActs h n nice shield prof).2.shielding
+          = (shield && h.hasCset && h.shieldActivates) := rfl
+      rw [hsh]
+      by_cases hc : (shield && h.hasCset) = true
+      · by_cases ha : h.shieldActivates = true
+        · intro _; simp [hc, ha, hr, applyActs, applyAct, Sys.upd, stdSys]
+        · intro hne; simp [hc, ha, applyActs, applyAct] at hne
+      · intro hne; simp [hc, applyActs] at hne
+    · intro g hg
+      simp only [List.mem_cons, List.not_mem_nil, or_false] at hg
+      rcases hg with rfl | rfl | rfl
+      · exact governor_untouched h _ _ _ _ (by intro j; simp)
+      · exact noTurbo_untouched h _ _ (by simp)
+      · exact perfRestore_untouched h _ rfl
+    · intro g hg
+      simp only [List.mem_cons, List.not_mem_nil, or_false] at hg
+      rcases hg with rfl | rfl | rfl | rfl
+      · exact governor_untouched h _ _ _ _ (by intro j; simp)
+      · exact noTurbo_untouched h _ _ (by simp)
+      · exact perfConfig_untouched h prof _ rfl
+      · exact nice_untouched _ _
+
+/-- an action that can only move a setting to its standard value -/
+def Act.toStd : Act → Prop
+  | .write k v => v = stdSys k
+  | .shieldOn _ _ => False
+  | _ => True
+
+theorem applyActs_toStd (h : Host) (as : List Act) (hs : ∀ a ∈ as, a.toStd) (x : Setting) :
+    ∀ s : Sys, applyActs h s as x = stdSys x ∨ applyActs h s as x = s x := by
+  induction as with
+  | nil => intro s; right; rfl
+  | cons a as ih =>
+    intro s
+    have hstep : applyAct h s a x = stdSys x ∨ applyAct h s a x = s x := by
+      have ha := hs a (by simp)
+      cases a with
+      | write k v =>
+        simp only [Act.toStd] at ha
+        simp only [applyAct, Sys.upd]
+        by_cases e : x = k
+        · subst e; left; simp [ha]
+        · right; simp [e]
+      | touch k => right; rfl
+      | niceProbe => right; rfl
+      | shieldOn lo hi => exact absurd ha (by simp [Act.toStd])
+      | shieldReset =>
+        simp only [applyAct]
+        split
+        · simp only [Sys.upd]
+          by_cases e : x = .shield
+          · subst e; left; simp [stdSys]
+          · right; simp [e]
+        · right; rfl
+    have := ih (fun b hb => hs b (List.mem_cons_of_mem _ hb)) (applyAct h s a)
+    simp only [applyActs, List.foldl_cons] at this ⊢
+    rcases this with h1 | h1
+    · left; exact h1
+    · rcases hstep with h2 | h2
+      · left; rw [h1, h2]
+      · right; rw [h1, h2]
+
+theorem restoreActs_toStd (h : Host) (n : Nat) (sh : Bool) : ∀ a ∈ (restoreActs h n sh).1, a.toStd := by
+  intro a ha
+  simp only [restoreActs, List.mem_append] at ha
+  rcases ha with ((ha | ha) | ha) | ha
+  · obtain ⟨j, rfl⟩ := governorActs_targets h vPowersave n 0 a ha
+    simp [Act.toStd, stdSys]
+  · unfold noTurboActs at ha
+    split at ha
+    · simp at ha; subst ha; simp [Act.toStd, stdSys]
+    · simp at ha
+  · unfold perfRestoreActs at ha
+    (repeat' split at ha) <;> simp at ha <;>
+      (try rcases ha with rfl | rfl | rfl) <;> (try rcases ha with rfl | rfl) <;> (try subst ha) <;>
+      simp [Act.toStd, stdSys]
+  · cases sh <;> simp at ha
+    subst ha; simp [Act.toStd]
+
+/-- `restore` moves settings only to their standard values (whatever state it finds) -/
+theorem c20_denoise_restore_only_to_standard (h : Host) (n : Nat) (sh : Bool) (s : Sys) (x : Setting) :
+    applyActs h s (restoreActs h n sh).1 x = stdSys x ∨ applyActs h s (restoreActs h n sh).1 x = s x :=
+  applyActs_toStd h _ (restoreActs_toStd h n sh) x s
+
+/-- from the presumed standard state the round trip is the identity: after `minimize` and
+`restore` every setting has its standard value again, for every host and flag combination -/
+theorem c20_denoise_roundtrip_standard (h : Host) (hr : h.shieldResets = true) (n : Nat)
+    (nice shield prof : Bool) (x : Setting) :
+    (roundTrip h n nice shield prof stdSys).2 x = stdSys x := by
+  by_cases hc : (roundTrip h n nice shield prof stdSys).1 x = stdSys x
+  · have := c20_denoise_restore_only_to_standard h n (minimizeActs h n nice shield prof).2.shielding
+      (roundTrip h n nice shield prof stdSys).1 x
+    simp only [roundTrip] at this hc ⊢
+    rcases this with h1 | h1
+    · exact h1
+    · rw [h1, hc]
+  · exact c20_denoise_restore_undoes h hr n nice shield prof stdSys x hc
+
+/-- FULL STATEMENT "the round trip gives back the state it found" (false: `restore` writes the
+*presumed* standard values): a machine whose governor was `ondemand` ends with `powersave` -/
+theorem c20_denoise_roundtrip_identity_full_fails :
+    ¬ ∀ (h : Host) (n : Nat) (nice shield prof : Bool) (s0 : Sys) (x : Setting),
+        h.shieldResets = true → (roundTrip h n nice shield prof s0).2 x = s0 x := by
+  intro hall
+  have := hall ⟨fun _ => true, false, false, true, false⟩ 1 false false false
+    (fun _ => ['o', 'n', 'd', 'e', 'm', 'a', 'n', 'd']) (.governor 0) rfl
+  revert this
+  decide
+
+/-- the shield is reset only if `minimize` reported one -/
+theorem c20_denoise_shield_reset_only_if_reported (h : Host) (n : Nat) (nice shield prof : Bool)
+    (s0 : Sys) (hsh : (minimizeActs h n nice shield prof).2.shielding = false) :
+    (roundTrip h n nice shield prof s0).2 .shield = (roundTrip h n nice shield prof s0).1 .shield := by
+  simp only [roundTrip, hsh]
+  apply applyActs_untouched
+  intro a ha
+  simp only [restoreActs, List.mem_append] at ha
+  rcases ha with ((ha | ha) | ha) | ha
+  · exact governor_untouched h _ _ _ _ (by intro j; simp) a ha
+  · exact noTurbo_untouched h _ _ (by simp) a ha
+  · exact perfRestore_untouched h _ rfl a ha
+  · simp at ha
 
 /-! ## "the shield's core range always lies within 0..cores-1" -/
 
